@@ -427,6 +427,7 @@ pub fn parse_model_run(reply: &str) -> Option<(RunRec, String)> {
     let status = it.next()?;
     let out = it.next()?;
     let fs = it.next().unwrap_or("fs=").strip_prefix("fs=").unwrap_or("").to_string();
+    let cyclic = it.next().unwrap_or("") == "cyclic=true";
     let parts: Vec<&str> = status.split(':').collect();
     let end = match parts[0] {
         "ok" => End::Ok,
@@ -438,6 +439,8 @@ pub fn parse_model_run(reply: &str) -> Option<(RunRec, String)> {
         "fuel" => End::Fuel,
         _ => return None,
     };
+    // a self-containing list is outside every property's quantifier: treat like an unfinished run
+    let end = if cyclic { End::Fuel } else { end };
     Some((RunRec { end, output: crate::util::unhex_str(out), diag_labels: vec![] }, fs))
 }
 
